@@ -42,7 +42,7 @@ func init() {
 }
 
 func runC08(a *A) {
-	r := resolveRoles(a, "C08-R0")
+	r := resolveRolesG(a, "C08-R0", "c")
 	if r != nil {
 		c08R1(a, r)
 	}
